@@ -224,7 +224,7 @@ def run(ctx):
     scns += gen(ctx, NT=3, NF=3, MaxIO=2, Sample=ctx.q(5000, 200000), FamN=0)
     scns += gen(ctx, NT=4, NF=4, MaxIO=2, Sample=ctx.q(2000, 100000), FamN=0)
     if ctx.thorough:
-        scns += gen(ctx, NT=5, NF=5, MaxIO=2, Sample=60000, FamN=0)
+        scns += gen(ctx, NT=5, NF=4, MaxIO=1, Sample=60000, FamN=0)   # (the universe must stay below 2^31 for RandomSubset)
     big = ctx.q([1200], [1200, 3000])
     rng = random.Random(ctx.seed)
     cli_every = max(1, len(scns) // ctx.q(120, 2500))
